@@ -81,6 +81,9 @@ def plan(seed, subbatch):
         faults, burst, _pe, _k = planlib.swarm_faults(cfg, base_s, tf_s, allowed=("drop", "dup", "burst", "jitter"))
         if cfg.random() < 0.4:
             faults["_regimes"] = True
+        if lifespan:
+            faults["halt_to_window"] = {"p": 0.04, "lifespan_s": lifespan, "interval_s": tf_s or base_s,
+                                        "kmin": -3, "kmax": 4, "after": 3}
     regimes = None
     if faults.pop("_regimes", False):
         regimes = world.REGIMES_NORMAL + ["stall", "zerovol"]
